@@ -303,7 +303,7 @@ CHECKS = {
         test="TestC20", level="exploration", shards=16,
         tiers=dict(quick=dict(checks=30, timeout=600), thorough=dict(checks=2000, timeout=3000)),
         rule="rapid stored histories (as C19) x 2-6 statements SELECT <permuted subset of columns, each optionally AS "
-             "alias, optionally Epoch> FROM `b` [WHERE Epoch >= t] [LIMIT n] with n in {1,2,count-1,count,count+1}, and "
+             "alias, optionally Epoch> FROM `b` [WHERE 1-2 conditions of C19's grammar] [LIMIT n] with n in {1,2,count-1,count,count+1}, and "
              "one INSERT INTO `t` SELECT * FROM `b` [WHERE Epoch range] into a bucket of the same schema and an equal or "
              "coarser timeframe; oracle: output has exactly the selected columns under alias-or-name (+ time columns) "
              "with the values of the server's own SELECT *, LIMIT n = first n rows of the filtered result, target bucket "
